@@ -460,7 +460,7 @@ PAL = [["0.250000", "0.250000", "0.250000", "0.250000"], ["0.970000", "0.010000"
        ["0.123457", "0.376543", "0.200000", "0.300000"]]
 
 
-def _meme_text(motifs, crlf, final_nl, trail_sp, header_blank, sep="  "):
+def _meme_text(motifs, crlf, final_nl, trail_sp, header_blank, sep="  ", log_odds_block=False):
     """motifs: list of (name, width, url, blanks_after, blank_before_matrix)"""
     nl = "\r\n" if crlf else "\n"
     lines = ["MEME version 4", "", "ALPHABET= ACGT", "", "strands: + -", "", "Background letter frequencies (from uniform background):",
@@ -469,6 +469,12 @@ def _meme_text(motifs, crlf, final_nl, trail_sp, header_blank, sep="  "):
     for mi, (name, width, url, blanks, bbm) in enumerate(motifs):
         lines.append("MOTIF " + name)
         lines.extend([""] * bbm)
+        if log_odds_block:
+            # the layout the MEME suite itself writes: a log-odds block precedes the letter-probability block of every motif
+            lines.append("log-odds matrix: alength= 4 w= %d E= 1.2e-003" % width)
+            for r in range(width):
+                lines.append("  " + "  ".join("%d" % v for v in [(-131 + 37 * r + 11 * j * (mi + 1)) % 250 - 100 for j in range(4)]))
+            lines.append("")
         lines.append("letter-probability matrix: alength= 4 w= %d nsites= 20 E= 0" % width)
         rows = []
         for r in range(width):
@@ -540,6 +546,18 @@ def run_meme(rec, sh, tier, seed):
             # characters that Python counts as white space or as line boundaries in SOME of its APIs (form feed, vertical tab, the
             # information separators, NEL, the Unicode line / paragraph separators), used between the numbers of a row and inside the
             # free-text part of a motif name: a line of the file ends at a newline and nowhere else
+            for crlf in (False, True):
+                motifs = [("M0 alt0", 2, False, 1, 0), ("MA0001.1", 3, True, 0, 0), ("M2", 1, False, 0, 0)]
+                text, exp = _meme_text(motifs, crlf, True, False, 1, log_odds_block=True)
+                with open(path, "w", newline="") as fh:
+                    fh.write(text)
+                case = dict(fn="read_meme", layout="3 motifs, each with a log-odds block before its letter-probability block", crlf=crlf)
+                st, got = call(read_meme, path)
+                rec.case(1, 1)
+                if st != "ok":
+                    rec.violation("read_meme:raises:log_odds_block", case, observed=got)
+                elif list(got.keys()) != [x[0] for x in exp] or any(tuple(got[nm].shape) != pw.shape or not numpy.array_equal(got[nm].numpy(), pw) for nm, pw in exp):
+                    rec.violation("read_meme:wrong_probabilities:log_odds_block", case, expected=[x[0] for x in exp], observed={k: v.tolist() for k, v in got.items()})
             for sep in ("\t", "\x0c", " \x0b ", "\x1c", " \x1d", "\x1e ", "\x85", "\u2028", " \u2029 "):
                 for crlf in (False, True):
                     motifs = [("M0 report%spage 2" % sep, 2, False, 1, 0), ("M1 report%spage 3" % sep, 3, True, 0, 0), ("MA0002.1", 1, False, 0, 0)]
